@@ -114,7 +114,8 @@ fn gen_cfg(r: &mut Rng) -> Cfg {
 
 fn gen_intervals(r: &mut Rng) -> String {
     let n = if r.chance(0.75) { 1 } else { 1 + r.below(3) as usize };
-    (0..n).map(|_| { let a = r.dyadic(-3.0, 3.0, 3); let mut b = r.dyadic(-3.0, 3.0, 3); if b == a { b = a + 1.0; } format!("[{:?}, {:?}]", a, b) }).collect::<Vec<_>>().join(", ")
+    // now and then an interval whose end points compare equal ([a,a], [0.0,-0.0]): a legal, empty range
+    (0..n).map(|_| { let a = r.dyadic(-3.0, 3.0, 3); let mut b = r.dyadic(-3.0, 3.0, 3); if b == a { b = a + 1.0; } if r.chance(0.04) { b = if a == 0.0 { -0.0 } else { a }; } format!("[{:?}, {:?}]", a, b) }).collect::<Vec<_>>().join(", ")
 }
 
 pub fn gen_cases(r: &mut Rng, n: usize) -> Vec<Case> {
@@ -342,7 +343,8 @@ fn judge(c: &Case, ds: &[CavDisplay2D], rep: &mut Report) {
         }
         for p in pieces {
             // ---- no empty / reversed piece
-            if !((p.b - p.a) * dir > 0.0) { rep.finding("oracle", if c.rs { &["C13"] } else { &["C11"] }, "empty-or-reversed-piece", input.clone(), format!("[{:e},{:e}] in [{:e},{:e}]", p.a, p.b, a, b)); }
+            // (an input interval whose end points compare equal yields its single empty piece)
+            if a != b && !((p.b - p.a) * dir > 0.0) { rep.finding("oracle", if c.rs { &["C13"] } else { &["C11"] }, "empty-or-reversed-piece", input.clone(), format!("[{:e},{:e}] in [{:e},{:e}]", p.a, p.b, a, b)); }
             // ---- C12 / C13 sampling geometry
             let props: &[&'static str] = if c.rs { &["C13"] } else { &["C12"] };
             if p.xv.len() != n_expected || p.fv.len() != n_expected || p.gv.len() != n_expected || p.dgv.len() != n_expected { rep.finding("oracle", props, "wrong-vector-length", input.clone(), format!("{} vs {}", p.xv.len(), n_expected)); continue; }
@@ -460,7 +462,7 @@ pub fn run(o: &Opts) -> Report {
     { let mut r2 = Rng::new(o.seed ^ 0x5ADD1E); cases.extend(gen_exact_saddle_cases(&mut r2, if o.thorough { 600 } else { 120 })); }
     cases.extend(gen_rs_cases(&mut r, if o.thorough { 3000 } else { 500 }));
     // offsets of the c-curve (C12): the same case with c + k
-    let extra: Vec<Case> = cases.iter().filter(|c| !c.rs && c.kind != "roots").take(if o.thorough { 300 } else { 60 }).map(|c| { let mut d = c.clone(); d.c = format!("({}) + {}", c.c, r.pick(&["1", "1000", "pi", "2.5"])); d.kind = "offset"; d.poly = None; d }).collect();
+    let extra: Vec<Case> = cases.iter().filter(|c| !c.rs && c.kind != "roots").take(if o.thorough { 300 } else { 60 }).map(|c| { let mut d = c.clone(); d.c = if c.cfg.tol >= 1e-9 && r.chance(0.4) { format!("({}) + {:?}", c.c, c.cfg.tol * *r.pick(&[0.5, 1.0, 0.25])) } else { format!("({}) + {}", c.c, r.pick(&["1", "1000", "pi", "2.5"])) }; d.kind = "offset"; d.poly = None; d }).collect();
     let n_base = cases.len();
     cases.extend(extra.iter().cloned());
     // corpus
@@ -517,7 +519,11 @@ pub fn run(o: &Opts) -> Report {
             if let Some(Some(bo)) = outs.get(bi) {
                 if bo.len() == eo.len() {
                     for (p, q) in bo.iter().zip(eo.iter()) {
-                        let sc = 1e3 + p.gv.iter().fold(0.0f64, |m, v| m.max(v.abs()));
+                        // offsets no larger than the tolerance are compared at rounding level (the shift they must not cause is
+                        // the offset itself, >= 2.5e-10); large offsets carry their own rounding
+                        let kval: f64 = e.c.rsplit(" + ").next().and_then(|t| t.parse().ok()).unwrap_or(1000.0);
+                        let gmax = p.gv.iter().fold(0.0f64, |m, v| m.max(v.abs()));
+                        let sc = if kval.abs() < 0.1 { 1e-3 * (1.0 + gmax) } else { 1e3 + gmax };
                         let same = p.xv.len() == q.xv.len() && p.gv.iter().zip(q.gv.iter()).all(|(a, b)| close(*a, *b, 1e-9 * sc)) && close(p.a, q.a, 1e-6) && close(p.b, q.b, 1e-6);
                         if !same { rep.finding("oracle", &["C12"], "offset-changes-output", e.text(), String::new()); break; }
                     }
